@@ -173,6 +173,7 @@ func main() {
 	out := flag.String("out", "segverify.ndjson", "trace file")
 	n := flag.Int("n", 300, "number of segments")
 	flips := flag.Int("flips", 24, "bit-flip probes per segment of the flip family")
+	exhaustive := flag.Int("exhaustive", 0, "number of 1- and 2-entry segments on which EVERY single bit is flipped")
 	flag.Parse()
 	wr := vt.NewWriter(*out)
 	defer wr.Close()
@@ -382,6 +383,43 @@ func main() {
 					e[x].sg = 1
 					verify(fmt.Sprintf("flip-signature(last=%v)", x == keep-1), t0, b.tsRe, inf, 0, e[:keep])
 				}
+			}
+		}
+	}
+	// exhaustive single-bit flips of every signed byte string of short segments
+	for x := 0; x < *exhaustive; x++ {
+		rng := vt.Rand(int64(500000 + x))
+		t0 := time.Now().Truncate(time.Second)
+		b := &builder{w: world, rng: rng, off: int(t0.Sub(world.Base) / time.Second), tsRe: -30}
+		ne := 1 + x%2
+		exps := []int{63, 5}[:ne]
+		ps, tags := b.build(ne, exps, 0, 0, nil)
+		info := append([]byte{}, ps.Info.Raw...)
+		fresh := func() []tag {
+			out := make([]tag, len(tags))
+			for k, t := range tags {
+				out[k] = t
+				out[k].pb = clonePB(t.pb)
+			}
+			return out
+		}
+		for bit := 0; bit < len(info)*8; bit++ {
+			inf := append([]byte{}, info...)
+			flipBit(inf, bit)
+			verify("xflip-info", t0, b.tsRe, inf, 1, fresh())
+		}
+		for k := 0; k < ne; k++ {
+			for bit := 0; bit < len(tags[k].pb.Signed.HeaderAndBody)*8; bit++ {
+				e := fresh()
+				flipBit(e[k].pb.Signed.HeaderAndBody, bit)
+				e[k].hb = 1
+				verify(fmt.Sprintf("xflip-body(last=%v)", k == ne-1), t0, b.tsRe, info, 0, e)
+			}
+			for bit := 0; bit < len(tags[k].pb.Signed.Signature)*8; bit++ {
+				e := fresh()
+				flipBit(e[k].pb.Signed.Signature, bit)
+				e[k].sg = 1
+				verify(fmt.Sprintf("xflip-signature(last=%v)", k == ne-1), t0, b.tsRe, info, 0, e)
 			}
 		}
 	}
